@@ -7,7 +7,7 @@
         f  flush    c  close   t  tell
   reply: one token per op, then ` | out=<hex> pos=<int> realpos=<int> rbuf=<hex> wbuf=<hex> closed=<0|1> left=<nat>`
 -/
-import PV.Model.BufFile
+import PV.Model.BufFileU
 import PV.Base.DriverIO
 open PV PV.BufFile
 
@@ -51,16 +51,25 @@ def parseOp (op : String) : Option Op :=
   | ["t"] => some .tell
   | _ => none
 
+def showNL (nl : List Bytes) : String := if nl.isEmpty then "-" else ",".intercalate (nl.map toHexTok)
+
 def step' (line : String) : String :=
   match words line with
   | "prog" :: mode :: bufsize :: dflt :: inp :: rg :: wg :: ops =>
     match intOfString? bufsize, dflt.toNat?, ofHex? inp, parseNats rg, parseNats wg, ops.mapM parseOp with
     | some bs, some dflt, some inp, some rg, some wg, some ops =>
       let f0 : BF Chan := { s := { inp := inp, rg := rg, wg := wg }, dflt := dflt, bufsize := dflt }
-      let (f, rs) := run chanOps (setMode f0 mode.toList bs 0) ops
+      -- 'U' in the mode string selects the universal-newline model (same BF underneath)
+      let (u, rs) :=
+        if mode.toList.contains 'U' then runU chanOps { f := setMode f0 mode.toList bs 0 } ops
+        else
+          let (f, rs) := run chanOps (setMode f0 mode.toList bs 0) ops
+          (({ f := f } : UF Chan), rs)
+      let f := u.f
       " ".intercalate (rs.map showOut) ++ " | out=" ++ toHexTok f.s.out ++ " pos=" ++ toString f.pos ++
         " realpos=" ++ toString f.realpos ++ " rbuf=" ++ toHexTok f.rbuf ++ " wbuf=" ++ toHexTok f.wbuf ++
-        " closed=" ++ (if f.closed then "1" else "0") ++ " left=" ++ toString f.s.inp.length
+        " closed=" ++ (if f.closed then "1" else "0") ++ " left=" ++ toString f.s.inp.length ++
+        " atcr=" ++ (if u.atCR then "1" else "0") ++ " nl=" ++ showNL u.nl
     | _, _, _, _, _, _ => "bad-op"
   | _ => "bad-op"
 
